@@ -600,6 +600,10 @@ def call_spec(ex, st, name, args, kwargs):
         return call_spec_recursive(ex, st, name, node, params, env, interpreted=rec)
     from .sym import _as_expression
     body = [b for b in node.body if not (isinstance(b, ast.Expr) and isinstance(b.value, ast.Constant))]
+    # leading `name = expr` statements are let-bindings
+    lets = []
+    while body and isinstance(body[0], ast.Assign) and len(body[0].targets) == 1 and isinstance(body[0].targets[0], ast.Name):
+        lets.append(body.pop(0))
     expr = _as_expression(body)
     if expr is None:
         raise Unsupported(f"spec function {name} is not expression-like")
@@ -608,6 +612,8 @@ def call_spec(ex, st, name, args, kwargs):
     ex.module, ex.defcls = None, None
     ex.spec += 1
     try:
+        for a in lets:
+            st.env[a.targets[0].id] = ex.eval(a.value, st)
         return ex.eval(expr, st)
     finally:
         ex.spec -= 1
